@@ -216,6 +216,7 @@ class SrcEdit:
         fpost: fst.FST | None,
         *,
         del_else_and_fin: bool = True,
+        del_else_and_fin_comms: bool = True,
         **options: object,
     ) -> tuple[fstloc, fstloc | None, list[str] | None]:  # (copy_loc, del/put_loc, put_lines)
         """Copy or cut from block of statements. If cutting all elements from a deletable field like 'orelse' or
@@ -234,6 +235,9 @@ class SrcEdit:
         - `flast`: The last `FST` being gotten.
         - `fpre`: The preceding-first `FST`, not being gotten, may not exist if `ffirst` is first of seq.
         - `fpost`: The after-last `FST` not being gotten, may not exist if `flast` is last of seq.
+        - `del_else_and_fin`: Whether to remove the 'else:' or 'finally:' if cutting all elements from that block.
+        - `del_else_and_fin_comms`: Whether the comments preceding an 'else:' or 'finally:' which is removed are also
+            removed (according to `precomms`). They are not if the 'else:' is just being replaced by an 'elif'.
         - `options`: See `FST` source editing `options`. Options used here `precomms`, `postcomms`, `prespace`,
             `postspace` and `pep8space`. `space` options determine how many empty lines to remove on a cut.
 
@@ -411,7 +415,10 @@ class SrcEdit:
                 if put_lines:
                     put_lines[0] = lines[del_ln][:del_col] + put_lines[0]  # prepend block start indentation to existing indentation, silly but whatever
 
-                if pre_pre_comms := self.pre_comments(lines, bound_ln, bound_col, del_ln, 0, options.get('precomms')):
+                if (del_else_and_fin_comms
+                    and (pre_pre_comms := self.pre_comments(lines, bound_ln, bound_col, del_ln, 0,
+                                                            options.get('precomms')))
+                ):
                     del_ln, _ = pre_pre_comms
 
                 del_loc = fstloc(del_ln, 0, del_end_ln, del_end_col)
@@ -867,7 +874,7 @@ class SrcEdit:
 
         _, put_loc, del_lines, _, (pre_semi, post_semi) = (
             self.get_slice_stmt(tgt_fst, field, True, block_loc, ffirst, flast, fpre, fpost,
-                                del_else_and_fin=del_else_and_fin, **options))
+                                del_else_and_fin=del_else_and_fin, del_else_and_fin_comms=False, **options))  # del_else_and_fin only if 'else:' becomes 'elif', the comments above it stay where they are
 
         put_ln, put_col, put_end_ln, put_end_col = put_loc
 
